@@ -226,3 +226,19 @@ Proof.
     destruct H as [H|[]]. inversion H; subst. exists nx, s. auto.
   - intros (nx & s & Hin & Ty & Dt). exists (p, nx, s). split; [exact Hin|]. rewrite Ty, Dt. left. reflexivity.
 Qed.
+
+(* without stale symbols every listed label was written by the last pass *)
+Theorem vice_current c p v :
+  Known_stale_symbol_survives c = false -> In (p, v) (vice_symbols c) ->
+  exists nx s, In (p, nx, s) (all (symbols c)) /\ s_ty s = TyLabel /\ s_data s = SDNum v /\
+               (Nat.ltb (s_pass s) (pass_idx c) = false \/ s_span s = None).
+Proof.
+  unfold Known_stale_symbol_survives, stale_symbols. intros K Hin.
+  apply vice_exact in Hin. destruct Hin as (nx & s & Hall & Ty & Dt). exists nx, s. repeat split; auto.
+  destruct (Nat.ltb (s_pass s) (pass_idx c)) eqn:L; [|left; reflexivity]. destruct (s_span s) eqn:Sp; [|right; reflexivity].
+  exfalso.
+  assert (F : In (p, nx, s) (filter (fun e => match e with (_, _, s0) => Nat.ltb (s_pass s0) (pass_idx c) && match s_span s0 with Some _ => true | None => false end end)
+                                    (all (symbols c)))).
+  { apply filter_In. split; [exact Hall|]. rewrite L, Sp. reflexivity. }
+  destruct (filter _ (all (symbols c))); [destruct F|discriminate].
+Qed.
